@@ -46,7 +46,7 @@ type Script struct {
 }
 
 func newScript(w *World, unit string) *Script {
-	s := &Script{Unit: unit, declared: map[string]bool{}, typeTags: map[string]int{}, strLits: map[string]string{}, world: w, used: map[string]bool{}, uncontracted: map[string]bool{}}
+	s := &Script{Unit: unit, declared: map[string]bool{"root": true, "ax:root_pos": true}, typeTags: map[string]int{}, strLits: map[string]string{}, world: w, used: map[string]bool{}, uncontracted: map[string]bool{}}
 	s.sorts = append(s.sorts,
 		"(declare-sort Str 0)",
 		"(declare-datatypes ((Slice 0)) (((mk_slice (s_arr Int) (s_off Int) (s_len Int) (s_cap Int)))))",
@@ -55,6 +55,8 @@ func newScript(w *World, unit string) *Script {
 	s.funs = append(s.funs,
 		"(define-fun nil_slice () Slice (mk_slice 0 0 0 0))",
 		"(define-fun nil_iface () Iface (mk_iface 0 0))",
+		"(declare-fun root (Int) Int)",
+		"(assert (forall ((r Int)) (! (=> (>= r 0) (= (root r) r)) :pattern ((root r)))))",
 		"(declare-fun str_len (Str) Int)",
 		"(declare-fun str_cat (Str Str) Str)",
 		"(declare-const str_empty Str)",
